@@ -125,3 +125,20 @@ impl State {
             r.is_err() ==> *final(self) == *old(self),
     { unimplemented!() }
 }
+
+// ---- cron_tick: the re-scheduling side (not part of the settlement property) ---------------------------------------------
+/// lib.rs next_update_epoch: the next cron epoch of a deal id (pure arithmetic on the id and the policy interval) — opaque here
+#[verifier::external_body]
+pub fn next_update_epoch(id: DealID, interval: i64, earliest: ChainEpoch) -> (r: ChainEpoch) { unimplemented!() }
+/// std BTreeMap<ChainEpoch, Vec<DealID>> as used for `new_updates_scheduled` (`vx_at(k)` = `entry(k).or_default()`, as above)
+#[verifier::external_body]
+pub struct UpdatesScheduled { inner: BTreeMap<ChainEpoch, Vec<DealID>> }
+impl View for UpdatesScheduled { type V = Map<ChainEpoch, Seq<DealID>>; uninterp spec fn view(&self) -> Map<ChainEpoch, Seq<DealID>>; }
+impl UpdatesScheduled {
+    #[verifier::external_body]
+    pub fn vx_at(&mut self, e: ChainEpoch) -> (r: &mut Vec<DealID>)
+        ensures
+            r@ == (if old(self)@.dom().contains(e) { old(self)@[e] } else { Seq::<DealID>::empty() }),
+            final(self)@ == old(self)@.insert(e, final(r)@),
+    { self.inner.entry(e).or_default() }
+}
